@@ -114,6 +114,9 @@ pub struct Doc {
     /// given on the command line (true) or only referenced by prepend/append (false)
     #[serde(default = "yes")]
     pub main: bool,
+    /// front-matter `shell:`
+    #[serde(default)]
+    pub shell: Option<String>,
     /// raw text override (unparsable documents); when set `tests` must be empty
     #[serde(default)]
     pub raw: Option<String>,
